@@ -108,6 +108,12 @@ pub fn run(tier: Tier) -> ! {
         run.violation(Violation { key: String::new(), summary: format!("cannot tabulate \\w through the public API: {e}"), replay: json!({"pattern": "\\w", "error": e}) });
         run.finish("exploration", Map::new(), &[]);
     }
+    // the patterns of this check use \w as an opaque atom; its table is tied to independent Unicode
+    // data here (see C08), so that "matches in full" means matching the documented word class
+    if let Some(problem) = tables.tables.get("\\w").and_then(|t| crate::c08::perl_anchor("\\w", t)) {
+        run.violation(Violation { key: String::new(), summary: problem.clone(), replay: json!({"pattern": "\\w", "input": "every scalar value", "problem": problem}) });
+        run.finish("exploration", Map::new(), &[]);
+    }
     let (k1, k2, k3, l) = match tier {
         Tier::Quick => (4, 2, 1, 4),
         Tier::Thorough => (5, 3, 2, 5),
